@@ -28,14 +28,14 @@ def state_queries(M, n, rng):
     region = [q for q in range(n) if rng.random() < 0.5] or [0]
     bits = np.array([rng.randint(0, 1) for _ in range(n)])
     q = {
-        'density_matrix': lambda s: _canon_poly(s.density_matrix) if (s.N - s.r) <= 5 else None,
+        'density_matrix': lambda s: s.density_matrix if (s.N - s.r) <= 5 else None,
         'expect': lambda s: [int(v) for v in s.expect(M.PL(obs))],
         'entropy': lambda s: int(s.entropy(region)),
-        'to_map': lambda s: M.oPL(s.to_map()),
-        'stabilizers': lambda s: M.oPL(s.stabilizers),
+        'to_map': lambda s: s.to_map(),
+        'stabilizers': lambda s: s.stabilizers,
         'repr': lambda s: repr(s),
         'get_prob': lambda s: round(float(s.get_prob(bits)), 9) if s.r == 0 else None,
-        'copy': lambda s: M.oST(s.copy()),
+        'copy': lambda s: s.copy(),
     }
     return q
 
@@ -43,13 +43,26 @@ def state_queries(M, n, rng):
 def map_queries(M, n, rng):
     other = gen_map(rng, n)
     return {
-        'to_state': lambda m: M.oST(m.to_state()),
-        'to_state_r': lambda m: M.oST(m.to_state(min(1, n))),
-        'inverse': lambda m: M.oPL(m.inverse()),
-        'compose': lambda m: M.oPL(m.compose(M.CM(other))),
+        'to_state': lambda m: m.to_state(),
+        'to_state_r': lambda m: m.to_state(min(1, n)),
+        'inverse': lambda m: m.inverse(),
+        'compose': lambda m: m.compose(M.CM(other)),
         'repr': lambda m: repr(m),
-        'copy': lambda m: M.oPL(m.copy()),
+        'copy': lambda m: m.copy(),
     }
+
+
+def canon(M, r):
+    """canonical value of a query result (library object or plain value)"""
+    if r is None or isinstance(r, (int, float, str, list)):
+        return r
+    if hasattr(r, 'cs'):
+        return _canon_poly(r)
+    if hasattr(r, 'gs') and hasattr(r, 'r'):
+        return M.oST(r)
+    if hasattr(r, 'gs'):
+        return M.oPL(r)
+    return repr(r)
 
 
 _MODEL = [None]
@@ -85,18 +98,29 @@ def reused_object_history(ctx, kind, n, seed, steps, which, be='np'):
         Q = map_queries(M, n, rng)
     names = [w for w in which if w in Q]
     hist = []
+    alive = []                         # earlier results that are still referenced: later calls must not change them
     sign_mode = seed % 2 == 0          # half of the histories change signs only between the queries
     for _ in range(steps):
+        for nm_, res_, was_ in alive:
+            now_ = canon(M, res_)
+            if now_ != was_:
+                return {'kind': 'oracle', 'where': '%s:a result of %s.%s changed after later calls (results share data)' % (be, kind, nm_), 'observed': now_ if len(str(now_)) < 600 else str(now_)[:600],
+                        'expected': was_ if len(str(was_)) < 600 else str(was_)[:600], 'history': hist, 'tags': ['history', 'result_aliasing', nm_]}
         if rng.random() < 0.5:
             name = rng.choice(names)
             hist.append('?' + name)
-            want = Q[name](fresh(obj))
+            want = canon(M, Q[name](fresh(obj)))
             snap = (M.oST(obj) if kind == 'state' else M.oPL(obj))
-            got = Q[name](obj)
+            res = Q[name](obj)
+            got = canon(M, res)
             if got != want:
                 return {'kind': 'oracle', 'where': '%s:%s.%s on a reused object differs from the same query on a fresh equal object' % (be, kind, name),
                         'observed': got if not isinstance(got, list) or len(str(got)) < 600 else str(got)[:600], 'expected': want if len(str(want)) < 600 else str(want)[:600],
                         'history': hist, 'object': snap, 'tags': ['history', name]}
+            # results announced as NEW objects stay referenced; accessors that slice the receiver (stabilizers) are views by design and are not held to this
+            if name in ('inverse', 'compose', 'to_state', 'to_state_r', 'to_map', 'copy', 'density_matrix') and not isinstance(res, (int, float, str, list, type(None))):
+                alive.append((name, res, got))
+                del alive[:-4]
         else:
             op = rng.choice(['sign', 'setps'] if sign_mode else ['sign', 'setps', 'rotate', 'transform', 'copy', 'measure'])
             hist.append(op)
